@@ -26,6 +26,11 @@ func ruleC05(w *World) {
 	// R5: every point stored in a public-key object comes from a G2-closed producer
 	w.floor("C05.R5", 8)
 	w.ruleG2Provenance("C05.R5", a)
+	// R11: no byte string leaves the stateful reconstruction with a nil error unless it is the buffer that was just
+	// verified: the cache is written only on the error-free edge and served only when non-nil (= C06.R1) — a share that
+	// does not parse must be refused on every call, not only on the first
+	w.floor("C05.R11", 4)
+	w.importObligations(ruleC06, "C06.R1", "C05.R11", nil)
 	// R9: "BLS signature parsing inside aggregation": every signature that enters the flat buffer handed to C has exactly
 	// the signature length (per element, not in total: C re-frames the buffer every 48 bytes), and the documented error
 	// classes are kept (= C04.R2 on AggregateBLSSignatures)
@@ -552,6 +557,54 @@ func ruleC06(w *World) {
 			if n == 0 {
 				w.undecided("C06.R11", fnKey(d.fn)+"/accepted-sizes", d.fn.Pos(), "no successful return found in the function itself")
 			}
+		}
+	}
+	// R13: the stateless reconstruction validates *every* entry of the lists it is given (index range, duplicates, share
+	// length), not only the t+1 it goes on to use: the loops that can leave with an error run over the parameters
+	// themselves, never over a truncated view of them
+	w.floor("C06.R13", 1)
+	if fn := w.fn(rootPath, "BLSReconstructThresholdSignature"); fn != nil {
+		n := 0
+		for _, b := range fn.Blocks {
+			for _, ins := range b.Instrs {
+				ph, ok := ins.(*ssa.Phi)
+				if !ok {
+					continue
+				}
+				_, lbase, _, okS := inductionSpan(ph)
+				if !okS || lbase == nil {
+					continue
+				}
+				lc, ok := stripConv(lbase).(*ssa.Call)
+				if !ok {
+					continue
+				}
+				bi, ok := lc.Call.Value.(*ssa.Builtin)
+				if !ok || bi.Name() != "len" {
+					continue
+				}
+				// does the loop leave with an error?
+				leaves := false
+				for _, bb := range fn.Blocks {
+					if !ph.Block().Dominates(bb) {
+						continue
+					}
+					if r, ok := bb.Instrs[len(bb.Instrs)-1].(*ssa.Return); ok && len(r.Results) > 0 && !isNilConst(r.Results[len(r.Results)-1]) {
+						leaves = true
+					}
+				}
+				if !leaves {
+					continue
+				}
+				n++
+				arg := stripConv(lc.Call.Args[0])
+				_, isParam := arg.(*ssa.Parameter)
+				key := fmt.Sprintf("%s/validation-loop#%d/whole-list", fnKey(fn), n)
+				w.check(isParam, "C06.R13", key, ph.Pos(), "validation loop runs over the whole parameter list", "the loop that refuses invalid entries runs over `"+render(arg)+"`, not over the whole list the caller passed: a duplicate / out-of-range index or a share of the wrong length beyond the truncation point is accepted silently")
+			}
+		}
+		if n == 0 {
+			w.undecided("C06.R13", fnKey(fn)+"/validation-loop", fn.Pos(), "no validating loop found in the stateless reconstruction")
 		}
 	}
 	// R9: shape of the key generation (share of participant j is P(j+1) in slot j, all participants covered, degree = len(a)-1)
